@@ -184,6 +184,30 @@ def run_c13(rnd, tier, v, stats):
 
 def run_c17(rnd, tier, v, stats):
     from hio.core.http import httping
+    # one parser object, several chunked messages in a row (a keep-alive connection): each message's trailers are ITS trailers
+    from hio.core.http import clienting as _cl
+    for it in range(10 if tier == "quick" else 100):
+        msg = bytearray()
+        rp = _cl.Respondent(msg=msg, method="GET")
+        seq = [rnd.choice([None, {"X-T": "t%d" % k}, {"X-A": "a", "X-B": "b%d" % k}]) for k in range(rnd.randint(2, 4))]
+        got = []
+        try:
+            for k, tr in enumerate(seq):
+                data = b"HTTP/1.1 200 OK\r\nTransfer-Encoding: chunked\r\n\r\n2\r\nab\r\n0\r\n" + b"".join(("%s: %s\r\n" % kv).encode() for kv in (tr or {}).items()) + b"\r\n"
+                cut = rnd.randrange(1, len(data))
+                for part in (data[:cut], data[cut:]):
+                    msg.extend(part)
+                    rp.parse()
+                rp.parse()
+                got.append({k_: v_ for k_, v_ in (rp.trails or {}).items()})
+                rp.makeParser()
+        except Exception as ex:   # noqa
+            v("C17/chunked-sequence-raised", dict(trailers=seq), repr(ex)[:100])
+            continue
+        stats["evals"] += 1
+        exp = [dict(t or {}) for t in seq]
+        if [{k_.lower(): v_ for k_, v_ in g_.items()} for g_ in got] != [{k_.lower(): v_ for k_, v_ in e_.items()} for e_ in exp]:
+            v("C17/trailers-of-another-message-reported", dict(trailers=seq), got, exp)
     N = 150 if tier == "quick" else 2000
     for it in range(N):
         body = bytes(rnd.randrange(256) for _ in range(rnd.choice([0, 1, 5, 17, 64])))
@@ -455,7 +479,12 @@ def make_app(specs):
                     raise httping.HTTPError(sp["err"], title="Denied", detail="not for you")
                 return ge()
             raise httping.HTTPError(sp["err"], title="Denied", detail="not for you")
-        start_response(sp["status"], list(sp["headers"]))
+        if sp.get("restart"):
+            # WSGI: start_response may be called again with exc_info before any body byte went out; the LAST call counts
+            start_response("500 Oops", [("Content-Type", "text/plain"), ("Content-Length", "5")])
+            start_response(sp["status"], list(sp["headers"]), (ValueError, ValueError("late"), None))
+        else:
+            start_response(sp["status"], list(sp["headers"]))
         if sp["gen"]:
             def g():
                 for p in sp["pieces"]:
@@ -488,7 +517,7 @@ def run_c18(rnd, tier, v, stats):
                 cl = len(total) - 1
             if cl is not None:
                 hdrs.append(("Content-Length", str(cl)))
-            specs.append(dict(status=rnd.choice(["200 OK", "404 Not Found", "201 Created"]), headers=hdrs, pieces=pieces, gen=rnd.random() < 0.5, cl=cl))
+            specs.append(dict(status=rnd.choice(["200 OK", "404 Not Found", "201 Created"]), headers=hdrs, pieces=pieces, gen=rnd.random() < 0.5, cl=cl, restart=rnd.random() < 0.15))
             if rnd.random() < 0.12:      # the application raises hio's HTTPError before any body byte: the server builds the error response itself
                 from hio.core.http import httping as _hh
                 e = _hh.HTTPError(403, title="Denied", detail="not for you")
@@ -506,7 +535,7 @@ def run_c18(rnd, tier, v, stats):
         srv, servant, socks = make_http_server(app=make_app(specs), n=1)
         cs = socks[0]
         inp = dict(requests=[(r["ver"], r["persistent"]) for r in reqs], pipelined=pipelined,
-                   apps=[dict(status=s["status"], cl=s["cl"], pieces=[len(p) for p in s["pieces"]], gen=s["gen"]) for s in specs])
+                   apps=[dict(status=s["status"], cl=s["cl"], pieces=[len(p) for p in s["pieces"]], gen=s["gen"], restart=bool(s.get("restart"))) for s in specs])
         stats["distinct"].add(repr(inp))
         if it < 2:
             stats["samples"].append(inp)
